@@ -37,6 +37,9 @@ ASSUMPTIONS = [
     "finite scene menu; a jitted call of custom_fdtd_forward with traced start/end executes the same driver code as the un-jitted call (checked by the conformance replays)",
 ]
 TOL = 1e-12
+# A run that overflowed leaves inf/nan in the container; the statement ("resetting ... or starting a new run from the arrays returned
+# by a previous run zeroes all time-dependent state") makes no exception for that, so one extra case resets such a container.
+INCLUDE_NONFINITE_RESET = True
 
 
 def _scene_specs():
@@ -45,7 +48,7 @@ def _scene_specs():
     S = {}
     S["pmlx_switched"] = dict(
         shape=[7, 3, 3], faces={"min_x": "pml", "max_x": "pml", **per_yz}, pml=2, eps={"tier": "iso", "pat": "distinct"},
-        sources=[dict(kind="dipole", box=[[2, 3], [1, 2], [1, 2]], polarization=2, wave=W, switch={"fixed_on_time_steps": [0, 1, 3, 4, 7]})],
+        sources=[dict(kind="dipole", box=[[2, 3], [1, 2], [1, 2]], polarization=2, source_type="magnetic", wave=W, switch={"fixed_on_time_steps": [0, 1, 3, 4, 7]})],
         detectors=[
             dict(kind="field", box=[[3, 4], [1, 2], [1, 2]], reduce_volume=False, switch={"interval": 2}),
             dict(kind="energy", box=[[2, 5], [0, 3], [0, 3]], reduce_volume=True, switch={"fixed_on_time_steps": [1, 2, 4, 5, 8]}),
@@ -55,7 +58,7 @@ def _scene_specs():
     )
     S["pml_all_plane"] = dict(
         shape=[7, 7, 7], faces={k: "pml" for k in ("min_x", "max_x", "min_y", "max_y", "min_z", "max_z")}, pml=2, eps={"tier": "iso", "pat": "seed"},
-        sources=[dict(kind="dipole", box=[[3, 4], [3, 4], [2, 3]], polarization=0, wave=W, switch={"interval": 3})],
+        sources=[dict(kind="dipole", box=[[3, 4], [3, 4], [2, 3]], polarization=0, source_type="magnetic", wave=W, switch={"interval": 3})],
         detectors=[
             dict(kind="field", box=[[2, 3], [3, 4], [3, 4]], reduce_volume=True, switch={"fixed_on_time_steps": [2, 3, 5, 9]}),
             dict(kind="phasor", box=[[3, 4], [4, 5], [3, 4]], wave_characters=[W], switch={"interval": 2}),
@@ -87,6 +90,8 @@ def cases(tier, seed):
         for k in range(1, T):
             out.append(dict(kind="conf_split", scene=name, T=T, k=k, seed=seed))
         out.append(dict(kind="conf_run", scene=name, T=T, seed=seed))
+    if INCLUDE_NONFINITE_RESET:
+        out.append(dict(kind="reset_nonfinite", scene=_menu(tier)[0][0], T=_menu(tier)[0][1], seed=seed))
     return out
 
 
@@ -380,7 +385,47 @@ def _conf(case):
     )
 
 
+def _reset_nonfinite(case):
+    """reset() / run_fdtd on a container whose time-dependent state holds inf and nan (the arrays a diverged run returns)."""
+    import jax
+    import jax.numpy as jnp
+    import numpy as np
+
+    from mc.oracles import drivers as D
+
+    fdtdx = __import__("fdtdx")
+    T = case["T"]
+    sc = _build(case)
+    ops = _Ops(sc)
+    reps, scale = _reference(sc, ops, T)
+    fails = []
+    evals = 0
+    for val, vname in ((np.inf, "inf"), (np.nan, "nan")):
+        a = sc.arrays
+        a = a.aset("fields->E", jnp.full_like(a.fields.E, val))
+        a = a.aset("fields->H", jnp.full_like(a.fields.H, val))
+        a = a.aset("fields->psi_E", jax.tree.map(lambda v: jnp.full_like(v, val), a.fields.psi_E))
+        a = a.aset("fields->psi_H", jax.tree.map(lambda v: jnp.full_like(v, val), a.fields.psi_H))
+        a = a.aset("detector_states", jax.tree.map(lambda v: jnp.full_like(v, val), a.detector_states))
+        snap = D.snapshot(a.reset())
+        evals += 1
+        bad = sorted(k for k, v in snap.items() if not np.all(v == 0))
+        if bad:
+            grp = "detector-state" if all(k.startswith("det/") for k in bad) else "fields"
+            fails.append(dict(sig=f"reset:non-finite-{grp}-survives", detail=dict(value=vname, not_zero=bad[:6])))
+        t2, a2 = fdtdx.run_fdtd(a, sc.objects, sc.config, jax.random.PRNGKey(0), show_progress=False)
+        evals += 1
+        w, key, problems = D.compare(reps[T], D.snapshot(a2), TOL, scale=scale)
+        if problems or w > TOL:
+            grp = "detector-state" if (problems and all("det/" in p for p in problems)) or (key or "").startswith("det/") else "fields"
+            fails.append(dict(sig=f"run_fdtd-on-reused-arrays:non-finite-{grp}-survives", detail=dict(value=vname, rel=w, key=key, problems=problems[:4])))
+    return dict(ok=not fails, failures=fails, detail={}, evals=evals, nontrivial=2, states=2, transitions=evals, traces=2,
+                outcome="nonfinite-reset-ok" if not fails else "nonfinite-survives-reset")
+
+
 def run_case(case):
     if case["kind"] == "explore":
         return _explore(case)
+    if case["kind"] == "reset_nonfinite":
+        return _reset_nonfinite(case)
     return _conf(case)
